@@ -452,3 +452,35 @@ Example C04_tree_from_dict_nonvacuous :
   exists r w', step w4 (OTreeFromDict c04_items) = (Ok r, w') /\ r = [1] /\
                map rid (pre_f (forest_of (nth 1 (trees w') (TS [] [] [] false None)))) = [5; 6; 7].
 Proof. eexists _, _. split; [vm_compute; reflexivity|]. split; vm_compute; reflexivity. Qed.
+
+(* ====================================================================================== *)
+(* set_data / rename, exactly.  C04_set_data above leaves the payload function [g] and the group existential
+   (it only says that kind and meta are kept).  Here they are pinned: which nodes are relabelled (the node,
+   or its whole clone group when with_clones=True and there are clones), what each of them gets (the new data
+   object where one is given and differs, the new data_id where it differs), and what the index becomes. *)
+From NT Require Import PreserveRelabel RefusalMore.
+
+Theorem C04_set_data_exact : forall w ti n d e wc r w',
+  step w (OSetData ti n d e wc) = (Ok r, w') ->
+  exists t s did', get_tree w ti = Some t /\ get_node n (forest_of t) = Some s /\
+    sd_did' t (sd_new_data s d) e = Some did' /\ r = [] /\
+    let nd := sd_new_data s d in
+    let ne := sd_new_did s did' in
+    let cur := idx_get (rdid s) (idx t) in
+    let hc := Nat.ltb 1 (length cur) in
+    let wcb := match wc with Some true => true | _ => false end in
+    let setd := fun inf => match nd with Some x => set_dat_i x inf | None => inf end in
+    hc && (match wc with None => true | _ => false end) = false /\
+    match ne, nd with
+    | Some x, _ =>
+        exists t', get_tree w' ti = Some t' /\
+          forest_of t' = relabel (if hc && wcb then cur else [n]) (fun inf => set_did_i x (setd inf)) (forest_of t) /\
+          reg t' = reg t /\
+          idx t' = (if hc && wcb then idx_move_group (rdid s) x cur (idx t) else idx_add x n (idx_del (rdid s) n (idx t)))
+    | None, Some _ =>
+        exists t', get_tree w' ti = Some t' /\ forest_of t' = relabel (if wcb then cur else [n]) setd (forest_of t) /\
+          reg t' = reg t /\ idx t' = idx t
+    | None, None => w' = w
+    end.
+Proof. exact set_data_exact. Qed.
+Print Assumptions C04_set_data_exact.
